@@ -90,6 +90,7 @@ type c24Srv struct {
 	br   *bufio.Reader
 	done chan struct{}
 	stop chan struct{}
+	h    RequestHandler // the (panic-recovering) handler, for consumers that bypass the wire
 
 	// gate: when armed with n > 0, every handler invocation waits AFTER the FS handler
 	// returned (i.e. while it still holds its file reader) until n handlers got there, so
@@ -149,7 +150,22 @@ func c24Start(t *testing.T, kind, root, croot string) *c24Srv {
 		f.CompressRoot = "" // compressed siblings are created next to the originals (the default)
 	}
 	srv := &c24Srv{kind: kind, stop: stop}
+	wrapCompress := strings.HasSuffix(kind, "+compress")
+	if wrapCompress {
+		// the FS does not compress itself; the generic CompressHandler wrapper consumes its
+		// body stream through a plain io.Writer and encodes it
+		f.Compress, f.CompressBrotli, f.CompressZstd = false, false, false
+		if strings.HasPrefix(kind, "dirfs") {
+			f.FS = os.DirFS(root)
+			f.Root = ""
+			f.AllowEmptyRoot = true
+			f.CompressRoot = ""
+		}
+	}
 	fsh := f.NewRequestHandler()
+	if wrapCompress {
+		fsh = CompressHandlerBrotliLevel(fsh, CompressBrotliDefaultCompression, CompressDefaultCompression)
+	}
 	// The FS handler is the real one; the wrapper only turns a panic of the library into an
 	// attributable 500 response (header X-Verif-Panic) instead of killing the test process.
 	h := func(ctx *RequestCtx) {
@@ -165,6 +181,7 @@ func c24Start(t *testing.T, kind, root, croot string) *c24Srv {
 		fsh(ctx)
 		srv.gate()
 	}
+	srv.h = h
 	s := &Server{Handler: h, Logger: log.New(io.Discard, "", 0)}
 	srv.ln = fasthttputil.NewInmemoryListener()
 	srv.done = make(chan struct{})
@@ -227,7 +244,11 @@ func c24ReadResp(br *bufio.Reader, method string) (*c24Resp, error) {
 	if err := resp.Read(br); err != nil {
 		return nil, err
 	}
-	r := &c24Resp{status: resp.StatusCode(), hdr: map[string]string{}, body: append([]byte(nil), resp.Body()...)}
+	return c24RespOf(&resp, append([]byte(nil), resp.Body()...)), nil
+}
+
+func c24RespOf(resp *Response, body []byte) *c24Resp {
+	r := &c24Resp{status: resp.StatusCode(), hdr: map[string]string{}, body: body}
 	for k, v := range resp.Header.All() {
 		r.hdr[string(k)] = string(v)
 	}
@@ -240,7 +261,34 @@ func c24ReadResp(br *bufio.Reader, method string) (*c24Resp, error) {
 	if ce := resp.Header.ContentEncoding(); len(ce) > 0 {
 		r.hdr["Content-Encoding"] = string(ce)
 	}
-	return r, nil
+	return r
+}
+
+// c24PlainWriter is an io.Writer and nothing else (in particular not an io.ReaderFrom).
+type c24PlainWriter struct{ b []byte }
+
+func (w *c24PlainWriter) Write(p []byte) (int, error) { w.b = append(w.b, p...); return len(p), nil }
+
+// doDirect runs the handler in the driver goroutine and consumes the response body with
+// Response.BodyWriteTo into a plain io.Writer (no connection, no bufio.Writer).
+func (s *c24Srv) doDirect(method, path, rng string, hasRange bool, ims, ae string) (r *c24Resp, err error) {
+	defer func() {
+		if p := recover(); p != nil {
+			r, err = nil, fmt.Errorf("PANIC while consuming the response: %v", p)
+		}
+	}()
+	var req Request
+	if rerr := req.Read(bufio.NewReader(bytes.NewReader(c24Wire(method, path, rng, hasRange, ims, ae)))); rerr != nil {
+		return nil, fmt.Errorf("harness request: %v", rerr)
+	}
+	var ctx RequestCtx
+	ctx.Init(&req, nil, nil)
+	s.h(&ctx)
+	var w c24PlainWriter
+	if werr := ctx.Response.BodyWriteTo(&w); werr != nil {
+		return nil, fmt.Errorf("Response.BodyWriteTo: %v", werr)
+	}
+	return c24RespOf(&ctx.Response, w.b), nil
 }
 
 // do sends one request on the main connection. After an error (the server dropped the
@@ -512,6 +560,39 @@ func TestVerifC24(t *testing.T) {
 		c24Flush()
 		lap("pooled")
 	}
+	// (5) other consumers of the same responses: Response.BodyWriteTo into a plain io.Writer
+	// (handler called directly), and the FS handler wrapped in CompressHandler (which also
+	// consumes the body stream through a plain writer) over the wire. The reference is the
+	// same: what is delivered does not depend on who drains the body.
+	ncons := 0
+	for _, kind := range []string{"osfs", "dirfs", "osfs+compress", "dirfs+compress"} {
+		srv := c24Start(t, kind, root, croot+"-cons-"+kind)
+		wrapped := strings.HasSuffix(kind, "+compress")
+		for _, v := range reqs {
+			if v.M != "GET" || (v.Ims != "none" && v.Ims != "at") {
+				continue
+			}
+			val := strings.Join(v.V, "")
+			path := fmt.Sprintf("/f%d.txt", v.N)
+			if wrapped {
+				for _, ae := range []string{"gzip", "br"} {
+					r, err := srv.do("GET", path, val, v.Has, imsVal[v.Ims], ae)
+					c24Judge(srv, v, val, ae, contents[v.N], r, err, "consumer=CompressHandler")
+					ncons++
+				}
+			} else {
+				r, err := srv.doDirect("GET", path, val, v.Has, imsVal[v.Ims], "-")
+				c24Judge(srv, v, val, "-", contents[v.N], r, err, "consumer=BodyWriteTo")
+				ncons++
+			}
+		}
+		srv.Close()
+		c24Flush()
+	}
+	nreq += ncons
+	nreqNontriv += ncons
+	lap("consumers")
+
 	// (4) histories: the file is replaced on disk between requests
 	nhist, nhistReq := 0, 0
 	// dimensions: compressed siblings next to the originals / under a separate CompressRoot,
@@ -535,7 +616,7 @@ func TestVerifC24(t *testing.T) {
 	nreq += nhistReq
 	nreqNontriv += nhistReq
 
-	vfStat(npbr+nrand+nreq, npbrNontriv+nreqNontriv, vfRec{"phase_seconds": phaseSec, "fs_histories": nhist, "fs_history_requests": nhistReq, "parsebyterange_vectors": npbr, "parsebyterange_random": nrand,
+	vfStat(npbr+nrand+nreq, npbrNontriv+nreqNontriv, vfRec{"phase_seconds": phaseSec, "fs_other_consumer_requests": ncons, "fs_histories": nhist, "fs_history_requests": nhistReq, "parsebyterange_vectors": npbr, "parsebyterange_random": nrand,
 		"fs_requests": nreq, "fs_sequences": nseq, "fs_pooled_reader_sequences": npooled, "fs_kinds": strings.Join(kinds, ","), "file_sizes": len(contents)})
 	vfDone()
 }
@@ -669,14 +750,28 @@ func c24Judge(srv *c24Srv, v c24Vec, val, ae string, content []byte, r *c24Resp,
 		if r.hdr["Content-Range"] != wantCR {
 			vfViol(key("content-range"), fmt.Sprintf("206 with Content-Range %q, expected %q", r.hdr["Content-Range"], wantCR), cas)
 		}
-		if enc != "" {
-			vfViol(key("range-encoded"), fmt.Sprintf("206 with Content-Encoding %q", enc), cas)
+		body := r.body
+		if strings.HasSuffix(srv.kind, "+compress") {
+			// the wrapper may encode the slice: decode it, the slice must still be exact
+			if enc != "" && !c24Accepts(ae, enc) {
+				vfViol(key("encoding-not-accepted"), fmt.Sprintf("206 with Content-Encoding %q, Accept-Encoding %q", enc, ae), cas)
+			}
+			dec, derr := c24Decode(enc, r.body)
+			if derr != nil {
+				vfViol(key("slice"), fmt.Sprintf("206 body (Content-Encoding %q) cannot be decoded: %v", enc, derr), cas)
+				break
+			}
+			body = dec
+		} else {
+			if enc != "" {
+				vfViol(key("range-encoded"), fmt.Sprintf("206 with Content-Encoding %q", enc), cas)
+			}
+			if r.hdr["Content-Length"] != strconv.Itoa(len(want)) {
+				vfViol(key("content-length"), fmt.Sprintf("206 with Content-Length %s, expected %d", r.hdr["Content-Length"], len(want)), cas)
+			}
 		}
-		if r.hdr["Content-Length"] != strconv.Itoa(len(want)) {
-			vfViol(key("content-length"), fmt.Sprintf("206 with Content-Length %s, expected %d", r.hdr["Content-Length"], len(want)), cas)
-		}
-		if v.M == "GET" && !bytes.Equal(r.body, want) {
-			vfViol(key("slice"), fmt.Sprintf("206 body (%d bytes) is not bytes %d-%d of the file", len(r.body), v.S, v.E), cas)
+		if v.M == "GET" && !bytes.Equal(body, want) {
+			vfViol(key("slice"), fmt.Sprintf("206 body (%d bytes after decoding) is not bytes %d-%d (%d bytes) of the file", len(body), v.S, v.E, len(want)), cas)
 		}
 	case 200:
 		if r.hdr["Content-Range"] != "" {
@@ -690,7 +785,8 @@ func c24Judge(srv *c24Srv, v c24Vec, val, ae string, content []byte, r *c24Resp,
 			if derr != nil || !bytes.Equal(dec, content) {
 				vfViol(key("content"), fmt.Sprintf("200 body (%d bytes, Content-Encoding %q) does not decode to the file's %d bytes (err %v)", len(r.body), enc, len(content), derr), cas)
 			}
-			if r.hdr["Content-Length"] != strconv.Itoa(len(r.body)) {
+			// (a chunked response - the CompressHandler wrapper streams - carries no Content-Length)
+			if r.hdr["Content-Length"] != "" && r.hdr["Content-Length"] != strconv.Itoa(len(r.body)) {
 				vfViol(key("content-length"), fmt.Sprintf("200 with Content-Length %s and %d body bytes", r.hdr["Content-Length"], len(r.body)), cas)
 			}
 		} else if enc == "" && r.hdr["Content-Length"] != strconv.Itoa(len(content)) {
